@@ -196,8 +196,11 @@ def edit_in_place(a, ra, s, how):
 def _axes(s, labels=None):
     labels = labels or s["labels"]
     axes = []
-    for d, l, k in zip(s["dims"], labels, s["kinds"]):
-        ax = Axis(np_labels(l, k), d)
+    for i, (d, l, k) in enumerate(zip(s["dims"], labels, s["kinds"])):
+        lv = np_labels(l, k)
+        if s.get("ldt") and s["ldt"][i]:        # narrow label dtype (int8 ... float32): fresh-variant specs only
+            lv = lv.astype(s["ldt"][i])
+        ax = Axis(lv, d)
         for ak, av in (s.get("axattrs") or {}).get(d, {}).items():
             ax.attrs[ak] = av
         axes.append(ax)
